@@ -4,7 +4,61 @@ import (
 	"bytes"
 	"sync"
 	"testing"
+	"time"
 )
+
+// c29SlowWriter holds its first Write until released, so that a Flush can be caught in the middle of draining.
+type c29SlowWriter struct {
+	c29CountingWriter
+	once     sync.Once
+	entered  chan struct{}
+	released chan struct{}
+}
+
+func (s *c29SlowWriter) Write(p []byte) (int, error) {
+	first := false
+	s.once.Do(func() { first = true })
+	if first {
+		close(s.entered)
+		<-s.released
+	}
+	return s.c29CountingWriter.Write(p)
+}
+
+// a line written while Flush is still draining the buffer must not reach the output ahead of the buffered ones
+func c29OvertakeDuringFlush(t *testing.T) bool {
+	out := &c29SlowWriter{entered: make(chan struct{}), released: make(chan struct{})}
+	w := &GatedWriter{Writer: out}
+	w.Write([]byte("early\n"))
+	w.Write([]byte("early\n"))
+	flushed, wrote := make(chan struct{}), make(chan struct{})
+	go func() { w.Flush(); close(flushed) }()
+	select {
+	case <-out.entered:
+	case <-time.After(10 * time.Second):
+		return false
+	}
+	go func() { w.Write([]byte("late\n")); close(wrote) }()
+	select {
+	case <-wrote:
+	case <-time.After(300 * time.Millisecond):
+	}
+	close(out.released)
+	for _, ch := range []chan struct{}{flushed, wrote} {
+		select {
+		case <-ch:
+		case <-time.After(10 * time.Second):
+			return false
+		}
+	}
+	out.mu.Lock()
+	defer out.mu.Unlock()
+	if len(out.lines) != 3 || !bytes.Equal(out.lines[2], []byte("late\n")) {
+		t.Logf("REPLAY-CONFIRMED C29: a line written while the gate was being opened overtook buffered lines: %q", out.lines)
+		return true
+	}
+	return false
+}
 
 type c29CountingWriter struct {
 	mu    sync.Mutex
@@ -21,7 +75,7 @@ func (c *c29CountingWriter) Write(p []byte) (int, error) {
 // Replay driver for C29: every line written before the gate opens, from any number of concurrent writers, must reach
 // the underlying output exactly once, ahead of the lines written after the gate opened. Drives the real GatedWriter.
 func TestVerifReplayC29GatedWriter(t *testing.T) {
-	confirmed := false
+	confirmed := c29OvertakeDuringFlush(t)
 	for round := 0; round < 400 && !confirmed; round++ {
 		out := &c29CountingWriter{}
 		w := &GatedWriter{Writer: out}
